@@ -172,7 +172,9 @@ func refine(st *pathState, cond ssa.Value, truth bool) bool {
 		}
 		if cy, isC := y.(*ssa.Const); isC {
 			p := accessPath(x)
-			if p != "" && !strings.Contains(p, "@") {
+			if p != "" {
+				// a path containing "@" names one particular call or phi
+				// instruction: equal strings still denote the same value
 				return st.assume(p, eq, constKey(cy))
 			}
 		} else {
